@@ -246,6 +246,15 @@ def gen(repo):
     for rel in MODULES:
         tree = ast.parse(open(os.path.join(repo, rel)).read())
         hits += [f"{rel}:{h}" for h in module_state(tree)]
+    sets = []
+    for rel in MODULES:
+        tree = ast.parse(open(os.path.join(repo, rel)).read())
+        for fn in [n for n in ast.walk(tree) if isinstance(n, (ast.FunctionDef, ast.AsyncFunctionDef))]:
+            for n in ast.walk(fn):
+                if isinstance(n, (ast.Set, ast.SetComp)) or (isinstance(n, ast.Call) and isinstance(n.func, ast.Name) and n.func.id in ("set", "frozenset")):
+                    sets.append(f"{rel}:{fn.name}:{ast.unparse(n)[:60]}")
+    out.append("(* set objects built inside function bodies: their iteration order depends on the string-hash seed *)")
+    out.append("Definition set_constructions : list bytes := [" + "; ".join(s(h.replace('"', "'")) for h in sets) + "].\n")
     out.append("(* function bodies that store into module-level / class-level state or are memoised *)")
     out.append("Definition shared_state_writers : list bytes := [" + "; ".join(s(h.replace('"', "'")) for h in hits) + "].\n")
     return "\n".join(out)
